@@ -221,7 +221,7 @@ find_short_option(char opt)
 
     D_OPTIONS(("opt == \"%c\"\n", opt));
     for (j = 0; j < SPIFOPT_NUMOPTS_GET(); j++) {
-        if (SPIFOPT_OPT_SHORT(j) == opt) {
+        if (opt && SPIFOPT_OPT_SHORT(j) == opt) {
             D_OPTIONS(("Match found at %d:  %c == %c\n", j, SPIFOPT_OPT_SHORT(j), opt));
             return j;
         }
@@ -541,6 +541,10 @@ spifopt_parse(int argc, char *argv[])
                 NEXT_ARG();
             } else {
                 opt++;
+                /* A lone "-" is not an option. */
+                if (!*opt) {
+                    NEXT_ARG();
+                }
             }
         }
 
